@@ -138,7 +138,9 @@ class G:
         if x < 0.88:
             tm = [d["s"] for d in self.srcs if d["kind"] == "timer" and d["s"] != me]
             if tm:
-                return {"op": "set_deadline", "s": r.choice(tm), "d": self.tick + r.choice([-1, 0, 1, 2, 50])}
+                t = r.choice(tm)
+                return [{"op": "set_deadline", "s": t, "d": self.tick + r.choice([-1, 0, 1, 2, 50])},
+                        {"op": "update", "ts": t}]
         if x < 0.94 and self.dead_tokens:
             return {"op": r.choice(["remove", "disable", "update", "enable"]), "t": r.choice(self.dead_tokens)}
         return {"op": "remove", "ts": me}
@@ -177,7 +179,8 @@ class G:
                         ops.append({"op": "rd", "s": s, "c": c})
                 if r.random() < dens:
                     for _ in range(r.choice([1, 1, 2])):
-                        ops.append(self.cb_op(s))
+                        o = self.cb_op(s)
+                        ops.extend(o if isinstance(o, list) else [o])
                     if r.random() < 0.3:
                         # self-directed deferred request
                         ops.append({"op": r.choice(["disable", "update"]), "ts": s})
@@ -350,13 +353,110 @@ class G:
         return scn
 
 
+def pat_batch(rnd, sid):
+    """In-batch interference: several sources are ready in the same dispatch and the callback that runs
+    first acts on a source whose event is later in the batch (timers come last in a batch)."""
+    r = rnd
+    srcs = []
+    n_act = r.choice([1, 1, 2])
+    s = 0
+    for _ in range(n_act):
+        s += 1
+        k = r.choice(["ping", "comp", "chan"])
+        d = {"s": s, "kind": k}
+        if k == "comp":
+            d["children"] = [{"interest": "r", "mode": r.choice(["level", "oneshot", "edge"])}]
+        srcs.append(d)
+    n_vic = r.choice([1, 2, 2])
+    vics = []
+    for _ in range(n_vic):
+        s += 1
+        k = r.choice(["timer", "timer", "timer", "ping", "comp", "chan"])
+        d = {"s": s, "kind": k}
+        if k == "timer":
+            d["held"] = 1
+            d["dl"] = r.choice([0, 1, 1])
+        if k == "comp":
+            d["children"] = [{"interest": "r", "mode": r.choice(["level", "oneshot", "edge"])}]
+            if r.random() < 0.3:
+                d["life"] = 1
+        srcs.append(d)
+        vics.append(d)
+    order = list(range(len(srcs)))
+    if r.random() < 0.5:
+        r.shuffle(order)
+    steps = [{"op": "insert", "s": srcs[i]["s"]} for i in order]
+    msg = 500
+
+    def cause(d):
+        nonlocal msg
+        if d["kind"] == "ping":
+            return [{"op": "ping", "s": d["s"]}]
+        if d["kind"] == "chan":
+            msg += 1
+            return [{"op": "send", "s": d["s"], "m": msg}]
+        if d["kind"] == "comp":
+            return [{"op": "wr", "s": d["s"], "c": 0}]
+        return []
+    for d in srcs:
+        steps += cause(d)
+    steps.append({"op": "advance", "k": 1})
+    steps.append({"op": "dispatch"})
+    if r.random() < 0.6:
+        for d in srcs:
+            if r.random() < 0.5:
+                steps += cause(d)
+        steps.append({"op": "advance", "k": 3})
+    steps.append({"op": "dispatch"})
+    if r.random() < 0.5:
+        steps.append({"op": "enable", "ts": r.choice(vics)["s"]})
+    steps.append({"op": "advance", "k": 5})
+    steps.append({"op": "dispatch"})
+    steps.append({"op": "dispatch"})
+    progs = {}
+    for d in srcs:
+        pl = []
+        for k in range(4):
+            ops = []
+            if d["kind"] == "comp":
+                ops.append({"op": "rd", "s": d["s"], "c": 0})
+            if k == 0 or r.random() < 0.3:
+                v = r.choice(vics)
+                if v["s"] != d["s"]:
+                    x = r.random()
+                    far = r.choice([1, 2, 40, 400])
+                    if x < 0.2:
+                        ops.append({"op": "remove", "ts": v["s"]})
+                    elif x < 0.35:
+                        ops.append({"op": "disable", "ts": v["s"]})
+                    elif x < 0.55:
+                        ops += [{"op": "disable", "ts": v["s"]}, {"op": "enable", "ts": v["s"]}]
+                    elif x < 0.8 and v["kind"] == "timer":
+                        ops += [{"op": "set_deadline", "s": v["s"], "d": 1 + far}, {"op": "update", "ts": v["s"]}]
+                    elif x < 0.9:
+                        ops.append({"op": "update", "ts": v["s"]})
+                    else:
+                        ops += [{"op": "remove", "ts": v["s"]}] + cause(v)
+            p = {"ops": ops}
+            if d["kind"] == "comp":
+                p["ret"] = r.choice(["continue", "continue", "continue", "reregister"])
+            if d["kind"] == "timer":
+                p["ret"] = r.choice(["drop", "drop", {"to": 2 + k + r.choice([0, 1, 30])}, {"dur": r.choice([0, 1])}])
+            pl.append(p)
+        progs["s%d" % d["s"]] = pl
+    return {"id": sid, "tick_us": 2000, "sources": srcs, "progs": progs, "steps": steps}
+
+
 def gen(seed, n, classes=None):
     classes = classes or CLASSES
     out = []
     for i in range(n):
         cls = classes[i % len(classes)]
         rnd = random.Random(seed * 1000003 + i)
-        out.append(G(rnd, cls).build("r%d_%s_%d" % (seed, cls, i)))
+        if i % 4 == 3 and cls in ("timers", "mix", "disable", "reuse", "ready"):
+            out.append(pat_batch(rnd, "b%d_%s_%d" % (seed, cls, i)))
+        else:
+            out.append(G(rnd, cls).build("r%d_%s_%d" % (seed, cls, i)))
     return out
 
 
